@@ -27,9 +27,20 @@ func (c *ColAuto) infer(t ColumnType, depth int) error {
 	if depth > maxInferDepth {
 		return errors.Errorf("column type is nested deeper than %d levels", maxInferDepth)
 	}
-	if c.Data != nil && c.DataType == t {
-		// Already ok.
-		return nil
+	if c.Data != nil && !c.Type().Conflicts(t) {
+		// Already ok: the column and its rows are kept. If the type differs, it
+		// is of the same kind with other parameters (precision, time zone, enum
+		// values); a column of another Go type than this type is read into, or
+		// one that cannot adopt the parameters, is built anew.
+		if c.DataType == t {
+			return nil
+		}
+		fresh := new(ColAuto)
+		if err := fresh.infer(t, depth); err == nil &&
+			reflect.TypeOf(fresh.Data) == reflect.TypeOf(c.Data) && adoptType(c.Data, t) == nil {
+			c.DataType = t // update subtype if needed
+			return nil
+		}
 	}
 	if v := inferGenerated(t); v != nil {
 		c.Data = v
@@ -176,6 +187,23 @@ func (c *ColAuto) infer(t ColumnType, depth int) error {
 	}
 
 	c.DataType = t
+	return nil
+}
+
+// typeAdopter is implemented by columns that ColAuto builds and whose
+// parameters all come from the type: adoptType replaces every one of them,
+// also those the new type does not mention, and keeps the rows.
+type typeAdopter interface {
+	adoptType(t ColumnType) error
+}
+
+func adoptType(c Column, t ColumnType) error {
+	if v, ok := c.(typeAdopter); ok {
+		return v.adoptType(t)
+	}
+	if v, ok := c.(Inferable); ok {
+		return v.Infer(t)
+	}
 	return nil
 }
 
